@@ -61,3 +61,60 @@ pub fn run(seed: u64, tier: &str, out: &mut Out) {
         out.emit(&format!("PAD {ach} {} {width} {glyphs}", if trunc { 1 } else { 0 }), &format!("{} ORACLE {verdict}", inner.chars().map(|c| (c as u32).to_string()).collect::<Vec<_>>().join(".")));
     }
 }
+
+/// C12 (wide elements): templates of one to three lines, each with at most one `wide_msg` / `wide_bar` and fixed
+/// text around it; the wide element takes exactly the columns the rest of *its own* line leaves, with its own
+/// alignment and truncation. Judged by an expectation computed here (ASCII content only).
+pub fn run_wide(seed: u64, tier: &str, out: &mut Out) {
+    let mut rng = Rng::new(seed ^ 0x12);
+    let n = if tier == "thorough" { 100_000 } else { 3_000 };
+    for _ in 0..n {
+        let width = *rng.pick(&[10u16, 17, 20, 40]);
+        let nlines = rng.range(1, 3);
+        let msg: String = (0..rng.below(30)).map(|_| *rng.pick(&['a', 'b', 'c', 'd', 'e', 'f'])).collect();
+        let mut tpl = String::new();
+        let mut want: Vec<Option<String>> = Vec::new();   // None = a bar line (only its width is judged)
+        for i in 0..nlines {
+            if i > 0 { tpl.push('\n'); }
+            let left: String = (0..rng.below(4)).map(|_| *rng.pick(&['[', '>', 'x', ' '])).collect::<String>().replace('{', "");
+            let right: String = (0..rng.below(4)).map(|_| *rng.pick(&[']', '<', 'y'])).collect();
+            let room = (width as usize).saturating_sub(left.len() + right.len());
+            match rng.below(6) {
+                0 => { tpl += &format!("{left}{right}"); want.push(Some(format!("{left}{right}"))); }
+                1 => { tpl += &format!("{left}{{wide_bar}}{right}"); want.push(None); }
+                k => {
+                    let (al, ach) = [("", 'l'), (":<", 'l'), (":^", 'c'), (":>", 'r')][(k as usize - 2) % 4];
+                    tpl += &format!("{left}{{wide_msg{al}}}{right}");
+                    let w = msg.len();
+                    let field = if w <= room { let d = room - w; let (l, r) = match ach { 'l' => (0, d), 'r' => (d, 0), _ => (d / 2, d - d / 2) }; format!("{}{}{}", " ".repeat(l), msg, " ".repeat(r)) }
+                        else { let e = w - room; let skip = match ach { 'l' => 0, 'r' => e, _ => e / 2 }; msg.chars().skip(skip).take(room).collect() };
+                    want.push(Some(format!("{left}{field}{right}")));
+                }
+            }
+        }
+        let rec = Recorder::new(8, width, true);
+        let pb = ProgressBar::with_draw_target(Some(10), ProgressDrawTarget::term_like(Box::new(rec.clone())));
+        pb.set_position(4);
+        let style = match ProgressStyle::with_template(&tpl) { Ok(s) => s, Err(_) => continue };
+        pb.set_style(style);
+        let (pb2, m2) = (pb.clone(), msg.clone());
+        let panicked = std::panic::catch_unwind(std::panic::AssertUnwindSafe(move || { pb2.set_message(m2); pb2.tick(); })).is_err();
+        let rows = rec.rows();
+        drop(pb);
+        let mut verdict = "ok".to_string();
+        if panicked { verdict = format!("FAIL panic tpl={tpl:?} msg={msg:?} width={width}"); }
+        else {
+            let mut exp_rows: Vec<Option<String>> = want.iter().map(|w| w.as_ref().map(|s| s.trim_end().to_string())).collect();
+            while exp_rows.last().map_or(false, |r| r.as_deref() == Some("")) { exp_rows.pop(); }
+            for (i, e) in exp_rows.iter().enumerate() {
+                let got = rows.get(i).cloned().unwrap_or_default();
+                match e {
+                    Some(e) => if &got != e { verdict = format!("FAIL wide line {i} of tpl={tpl:?} msg={msg:?} width={width}: got {got:?} wanted {e:?}"); break; },
+                    None => { let cols = console::measure_text_width(&got); let barlike = got.chars().filter(|c| "█░▉▊▋▌▍▎▏".contains(*c)).count();
+                        if cols != width as usize || barlike == 0 { verdict = format!("FAIL wide bar line {i} of tpl={tpl:?} width={width}: got {got:?} ({cols} columns)"); break; } }
+                }
+            }
+        }
+        out.emit(&format!("NOMODEL WIDE w={width} tpl={:?} msg={msg:?}", tpl), &format!(" ORACLE {verdict}"));
+    }
+}
